@@ -13,6 +13,7 @@ import (
 
 	"github.com/robertkrimen/otto"
 
+	"verif/harness/internal/api"
 	"verif/harness/internal/core"
 	"verif/harness/internal/tlc"
 )
@@ -237,7 +238,15 @@ func Check(c *core.Ctx) (map[string]any, []string, error) {
 	if err != nil {
 		return nil, nil, err
 	}
+	// (d) the API-level state machine (spec/OttoAPI.tla): runtimes as values, New / Run by five
+	// routes / host panic / Copy / Set / Get / Call; a step of one runtime leaves every other
+	// unchanged (CopyIsValue), replayed transition by transition on real runtimes
+	apiCov, err := api.Stage(c, !c.Thorough())
+	if err != nil {
+		return nil, nil, fmt.Errorf("API state machine stage: %v", err)
+	}
 	cov := map[string]any{
+		"api_state_machine": apiCov,
 		"states": states + res.Distinct, "transitions": trans + res.Generated, "traces_validated_against_impl": nUnits,
 		"samples":    []any{map[string]any{"schedule": firstOr(schedules), "note": "each entry releases the named runtime for 3 statement polling points"}},
 		"model_runs": tlcRuns, "schedules_replayed_gated": replayed, "units_judged": nUnits, "units_under_race_detector": len(raceUnits),
@@ -247,6 +256,7 @@ func Check(c *core.Ctx) (map[string]any, []string, error) {
 		"the TLA+ model (spec/C20.tla) states what may be shared: the compiled script table, read-only; TLC checks Independent and ScriptImmutable on every interleaving and supplies the schedules",
 		"gated replay: the build-tag-guarded polling hook blocks each interpreter goroutine until the scheduler releases it; channel synchronisation hides races from the detector, so data races are looked for in a separate free-running -race build (cmd/c20race)",
 		"every runtime's outcomes (gated and free-running) are judged by the sequential specification (RunSeq of ES5Core)",
+		"the API-level state machine (spec/OttoAPI.tla, design.d/API.md) is model-checked (CopyIsValue, TotalReplies) and every one of its transitions is replayed on real runtimes with its shortest path; quick: exhaustive to 3 calls on up to 3 runtimes",
 		"the race detector observes only the executions that happen; it is the observation instrument for the memory-model clause, which a TLA+ model cannot see",
 	}, nil
 }
